@@ -31,12 +31,24 @@ impl Prop for C03 {
     }
     fn budget(&self, tier: Tier) -> u64 {
         match tier {
-            Tier::Quick => 200_000,
-            Tier::Thorough => 6_000_000,
+            Tier::Quick => 600_000,
+            Tier::Thorough => 10_000_000,
         }
     }
     fn required_labels(&self) -> Vec<&'static str> {
         vec!["len12-15", "len16-31", "len32-63", "len64-127", "len128-255", "len256-259", "process_packet_response"]
+    }
+    fn enumerate(&self, tier: Tier, shard: usize, nshards: usize, f: &mut dyn FnMut(PktCase)) {
+        let mut idx = 0usize;
+        super::enumer::for_each_enc_case(tier, false, false, true, &mut |env, call| {
+            idx += 1;
+            if idx % nshards == shard {
+                f(PktCase::Enc(EncCase { env, call }));
+            }
+        });
+    }
+    fn enumerated_desc(&self, _tier: Tier) -> Option<String> {
+        Some(ENC_ENUM_DESC.to_string())
     }
     fn run(&self, case: &PktCase) -> CaseResult {
         let mut r = CaseResult::default();
